@@ -6,10 +6,10 @@ import vf
 KINDS = {
     "C01": {"NoMisroute", "NoReuseWhileOutstanding", "ResponseReaches", "TimeoutHonoured"},
     "C06": {"OutcomeOnce", "OutcomeAllowed", "ReleaseOnce", "ObserverOnce", "NoLeak", "Conservation",
-            "CloseReturns", "RequestEnds", "TimeoutHonoured"},
+            "CloseReturns", "RequestEnds", "TimeoutHonoured", "ObserverEnds"},
 }
 MON_FIELDS = dict(ev="", seq=0, req=0, stream=0, tok="", echo="", outcome="", avail=0, closed=0, cap=0, what="")
-MON_EVENTS = {"call", "ret", "n_recv", "n_send", "x_release", "obs_finished", "obs_abandoned", "avail", "env_stuck", "env_expect_resp", "r_lookup", "r_discard", "env_early_timeout"}
+MON_EVENTS = {"call", "ret", "n_recv", "n_send", "x_release", "obs_finished", "obs_abandoned", "avail", "env_stuck", "env_expect_resp", "r_lookup", "r_discard", "env_early_timeout", "obs_started", "c_begin"}
 
 
 def project_for_monitor(events, conn_id):
@@ -17,7 +17,7 @@ def project_for_monitor(events, conn_id):
     for e in events:
         if e["ev"] not in MON_EVENTS:
             continue
-        if e["ev"] in ("x_release", "r_lookup", "r_discard") and e.get("conn") != conn_id:
+        if e["ev"] in ("x_release", "r_lookup", "r_discard", "c_begin") and e.get("conn") != conn_id:
             continue
         r = dict(MON_FIELDS)
         for k in r:
@@ -25,6 +25,8 @@ def project_for_monitor(events, conn_id):
                 r[k] = e[k]
         if e["ev"] in ("r_lookup", "r_discard"):
             r["stream"] = e.get("a", 0)      # (the hook reports the frame's stream id in field a)
+        if e["ev"] == "c_begin":
+            r["what"] = e.get("err", "none")
         out.append(r)
     out.append(dict(MON_FIELDS, ev="end", seq=(events[-1]["seq"] + 1) if events else 1))
     return out
